@@ -15,7 +15,7 @@ Definition run_enc (l : list val) : val :=
   let k := match zval (vnth l 1) with 0%Z => KB64 | _ => KUU end in
   match run_writer k (nval (vnth l 2)) (opt_bytes (vnth l 3)) (opt_bytes (vnth l 4))
                    (map bval (lval (vnth l 5))) with
-  | Some blocks => VL [VI 0; VL (map VB blocks)]
+  | Some blocks => VL [VI (if name_rejected k (opt_bytes (vnth l 4)) then (-25) else 0); VL (map VB blocks)]
   | None => VErr 1
   end.
 
